@@ -458,15 +458,15 @@ class TDMProgram(Program):
                 return
             self.roll()
 
-        # store the number of shots in the unrolled circuit
-        self._unrolled_shots = shots
-
         if self.space_unrolled_circuit is not None:
             self.locked = _locked
             raise ValueError(
                 "Program is space-unrolled and cannot be unrolled. Must be rolled (by calling the"
                 "'roll()' method) before unrolling."
             )
+
+        # store the number of shots in the unrolled circuit
+        self._unrolled_shots = shots
 
         self._unroll_program(shots, space=False)
         self.locked = _locked
